@@ -440,7 +440,7 @@ pub fn gen_c08_with(rng: &mut Rng, tier: Tier, real_scale: bool) -> Case {
     };
     if let Some(k) = fault_k {
         // err % 4 == 0: the creator (or a chunk) fails with a plain io::Error
-        c08.env.faults = vec![crate::env::FaultSpec { k, err: 4 * rng.below(9) as u8 }];
+        c08.env.faults = vec![crate::env::FaultSpec { k, err: 4 * rng.below(9) as u8, sticky: false }];
     }
     Case::Sort(c08)
 }
